@@ -600,6 +600,7 @@ func genPurity(out string, root, helpers *pkgFiles) {
 		// the listed helper calls
 		cloneThenEvaluate := func(body *ast.BlockStmt, param string, allowed map[*ast.CallExpr]bool) (evalOnCopy, escapes bool) {
 			copyVar := ""
+			cloneCalls := map[*ast.CallExpr]bool{}
 			ast.Inspect(body, func(n ast.Node) bool {
 				switch x := n.(type) {
 				case *ast.AssignStmt:
@@ -610,6 +611,11 @@ func genPurity(out string, root, helpers *pkgFiles) {
 					}
 					if len(x.Lhs) == 1 && len(x.Rhs) == 1 {
 						if ce, ok := x.Rhs[0].(*ast.CallExpr); ok {
+							// `copy := cloneAll(nodes)`: a same-package helper that returns a fresh slice of deep clones of its parameter's elements
+							if id, ok := ce.Fun.(*ast.Ident); ok && len(ce.Args) == 1 && exprString(ce.Args[0]) == param && deepCloneAllHelper(root, id.Name) {
+								copyVar = exprString(x.Lhs[0])
+								cloneCalls[ce] = true
+							}
 							if exprString(ce.Fun) == "append" && len(ce.Args) == 2 {
 								if in, ok := ce.Args[1].(*ast.CallExpr); ok && strings.HasSuffix(exprString(in.Fun), "DeepCloneNode") {
 									copyVar = exprString(x.Lhs[0])
@@ -624,7 +630,7 @@ func genPurity(out string, root, helpers *pkgFiles) {
 					}
 				case *ast.CallExpr:
 					f := exprString(x.Fun)
-					if f == "len" || strings.HasSuffix(f, "DeepCloneNode") || f == "make" || allowed[x] {
+					if f == "len" || strings.HasSuffix(f, "DeepCloneNode") || f == "make" || allowed[x] || cloneCalls[x] {
 						return true
 					}
 					for _, a := range x.Args {
@@ -766,7 +772,20 @@ func genLocks(out string, root, helpers *pkgFiles) {
 		p    *pkgFiles
 		name string
 	}{{root, "vuego"}, {helpers, "helpers"}} {
-		rows = append(rows, lockRows(pk.p, pk.name)...)
+		rs := lockRows(pk.p, pk.name)
+		// an unexported plain function with exactly ONE calling function in its package is part of that function (a closure moved to package
+		// level, a block given a name): its unlocked accesses are the caller's - stated with no lock, which is the conservative reading
+		sc := singleCallers(pk.p)
+		for i := range rs {
+			for hop := 0; hop < 3; hop++ {
+				caller, ok := sc[rs[i].Fn]
+				if !ok || rs[i].Lock != "" {
+					break
+				}
+				rs[i].Fn = caller
+			}
+		}
+		rows = append(rows, rs...)
 	}
 	sort.Slice(rows, func(i, j int) bool {
 		a, b := rows[i], rows[j]
@@ -1091,4 +1110,118 @@ func lockRows(p *pkgFiles, pkgName string) []access {
 		walkBlock(f.decl.Body.List, held)
 	}
 	return rows
+}
+
+// singleCallers: unexported plain functions (no receiver) that are called from exactly one function of the package -> that function's name
+func singleCallers(p *pkgFiles) map[string]string {
+	callers := map[string]map[string]bool{}
+	plain := map[string]bool{}
+	for _, fn := range allFuncs(p) {
+		if fn.decl.Recv == nil && !ast.IsExported(fn.decl.Name.Name) {
+			plain[fn.name] = true
+		}
+	}
+	for _, fn := range allFuncs(p) {
+		ast.Inspect(fn.decl.Body, func(n ast.Node) bool {
+			switch x := n.(type) {
+			case *ast.CallExpr:
+				if id, ok := x.Fun.(*ast.Ident); ok && plain[id.Name] && id.Name != fn.name {
+					if callers[id.Name] == nil {
+						callers[id.Name] = map[string]bool{}
+					}
+					callers[id.Name][fn.name] = true
+				}
+			}
+			return true
+		})
+	}
+	// a function that is also used as a VALUE (passed around, stored) has callers that cannot be seen: left alone
+	used := map[string]int{}
+	for _, fn := range allFuncs(p) {
+		ast.Inspect(fn.decl.Body, func(n ast.Node) bool {
+			if id, ok := n.(*ast.Ident); ok && plain[id.Name] {
+				used[id.Name]++
+			}
+			return true
+		})
+	}
+	calls := map[string]int{}
+	for _, fn := range allFuncs(p) {
+		ast.Inspect(fn.decl.Body, func(n ast.Node) bool {
+			if ce, ok := n.(*ast.CallExpr); ok {
+				if id, ok := ce.Fun.(*ast.Ident); ok && plain[id.Name] {
+					calls[id.Name]++
+				}
+			}
+			return true
+		})
+	}
+	out := map[string]string{}
+	for h, cs := range callers {
+		if len(cs) == 1 && used[h] == calls[h] {
+			for c := range cs {
+				out[h] = c
+			}
+		}
+	}
+	return out
+}
+
+// deepCloneAllHelper: a plain same-package function with one slice parameter that fills ONE local slice with DeepCloneNode of the
+// parameter's elements (append or indexed store), returns that slice at every return, and lets the parameter go nowhere else
+func deepCloneAllHelper(p *pkgFiles, name string) bool {
+	fd := p.fn(name)
+	if fd == nil || fd.Type.Params == nil || len(fd.Type.Params.List) != 1 || len(fd.Type.Params.List[0].Names) != 1 {
+		return false
+	}
+	param := fd.Type.Params.List[0].Names[0].Name
+	out := ""
+	ok := true
+	ast.Inspect(fd.Body, func(n ast.Node) bool {
+		switch x := n.(type) {
+		case *ast.AssignStmt:
+			for _, r := range x.Rhs {
+				if exprString(r) == param {
+					ok = false // an alias of the parameter
+				}
+			}
+			if len(x.Lhs) == 1 && len(x.Rhs) == 1 {
+				if ce, isC := x.Rhs[0].(*ast.CallExpr); isC {
+					if exprString(ce.Fun) == "append" && len(ce.Args) == 2 {
+						if in, isIn := ce.Args[1].(*ast.CallExpr); isIn && strings.HasSuffix(exprString(in.Fun), "DeepCloneNode") {
+							out = exprString(x.Lhs[0])
+						}
+					}
+					if strings.HasSuffix(exprString(ce.Fun), "DeepCloneNode") {
+						if ie, isI := x.Lhs[0].(*ast.IndexExpr); isI {
+							out = exprString(ie.X)
+						}
+					}
+				}
+			}
+		case *ast.CallExpr:
+			f := exprString(x.Fun)
+			if f == "len" || f == "make" || strings.HasSuffix(f, "DeepCloneNode") {
+				return true
+			}
+			for _, a := range x.Args {
+				if exprString(a) == param {
+					ok = false
+				}
+			}
+		}
+		return true
+	})
+	if out == "" || !ok {
+		return false
+	}
+	ast.Inspect(fd.Body, func(n ast.Node) bool {
+		if rs, isR := n.(*ast.ReturnStmt); isR {
+			if len(rs.Results) != 1 || exprString(rs.Results[0]) != out {
+				ok = false
+			}
+		}
+		return true
+	})
+	return ok
 }
